@@ -171,6 +171,40 @@ def handleKrome (j : Json) : Except String Json := do
     | some s => Json.str s
     | none => Json.null
 
+/-- emitted text as JSON: runs of characters as strings, magnitudes as numbers -/
+def chJson (l : List CE.Ch) : Json :=
+  let rec go (acc : List Char) (out : Array Json) : List CE.Ch → Array Json
+    | [] => if acc.isEmpty then out else out.push (Json.str (String.ofList acc.reverse))
+    | CE.Ch.c ch :: rest => go (ch :: acc) out rest
+    | CE.Ch.mag i :: rest =>
+      let out := if acc.isEmpty then out else out.push (Json.str (String.ofList acc.reverse))
+      go [] (out.push (Json.num (i : Nat))) rest
+  Json.arr (go [] #[] l)
+
+def parseLit (j : Json) (id : Nat) : Except String Rate.Lit := do
+  let n ← (← j.getArrVal? 0).getBool?
+  let z ← (← j.getArrVal? 1).getBool?
+  pure ⟨n, z, id⟩
+
+def parseFmt (s : String) : Except String Rate.Fmt :=
+  match s with
+  | "kida" => pure .kida | "umist" => pure .umist | "leeds" => pure .leeds
+  | "uclchem" => pure .uclchem | "naunet" => pure .native
+  | _ => throw s!"unknown format {s}"
+
+def handleGasRate (j : Json) : Except String Json := do
+  let fmt ← parseFmt (← (← j.getObjVal? "fmt").getStr?)
+  let code ← (← j.getObjVal? "code").getNat?
+  let a ← parseLit (← j.getObjVal? "a") 0
+  let b ← parseLit (← j.getObjVal? "b") 1
+  let c ← parseLit (← j.getObjVal? "c") 2
+  let name ← (← j.getObjVal? "name").getStr?
+  let alias ← (← j.getObjVal? "alias").getStr?
+  match Rate.gasRate fmt code a b c ⟨name.toList, alias.toList⟩ with
+  | .ok txt => pure <| Json.mkObj [("text", chJson txt), ("parses", (CE.parseC txt).isSome)]
+  | .error .notImplemented => pure <| Json.mkObj [("error_kind", "NotImplementedError")]
+  | .error .undefinedCode => pure <| Json.mkObj [("error_kind", "undefined")]
+
 def handle (line : String) : String :=
   match Json.parse line with
   | .error e => (Json.mkObj [("error", s!"json: {e}")]).compress
@@ -183,6 +217,7 @@ def handle (line : String) : String :=
       | "solve" => handleSolve j
       | "net" => handleNet j
       | "window" => handleWindow j
+      | "gasrate" => handleGasRate j
       | "kromebound" => handleKrome j
       | "dup" => handleDup j
       | "order" => handleOrder j
